@@ -64,6 +64,14 @@ def gen_cases(ctx):
                    lambda n: "to_array(" * n + "a" + ")" * n, lambda n: "{k:" * n + "a" + "}" * n, lambda n: "a" + "[?" * n + "b" + "]" * n,
                    lambda n: "a" + ".b[*]" * n, lambda n: "a" + " || (b" * n + ")" * n, lambda n: "a" + "[0]" * n + ".b" * n):
             out.append(("deep-sentence", mk(depth)))
+    # wide sentences: many operators of one kind side by side at nesting depth 1 (counters that are not released would run out)
+    for n in [65, 70, 130, 300]:
+        for unit, sep in (("a[*]", " | "), ("a[*]", " || "), ("a[]", " && "), ("a[?b]", " | "), ("a.*", " || "), ("a[1:]", " | "), ("!a", " && "),
+                          ("f(a)", " | "), ("[a]", " | "), ("{k: a}", " | "), ("a[0]", " == "), ("(a)", " | ")):
+            out.append(("deep-sentence", sep.join([unit] * n)))
+        out.append(("deep-sentence", "[" + ", ".join(["a[*]"] * n) + "]"))
+        out.append(("deep-sentence", "f(" + ", ".join(["a[*]"] * n) + ")"))
+        out.append(("deep-sentence", "{" + ", ".join("k%d: a[*]" % i for i in range(n)) + "}"))
     out += S.expr_cases(ctx, 3000 if q else 300000, 3000 if q else 300000, 1500 if q else 150000,
                         1500 if q else 150000, 1000 if q else 100000)
     if not q:
